@@ -61,6 +61,33 @@ def glob_ok_version(ver):
 
 
 @lru_cache(maxsize=None)
+def glob_open_version(ver):
+    """True when '=ver*' may be written although A2 is arguable for *some* packages: like glob_ok_version, but the
+    written version may end in a version letter or in a number-less suffix (_p, _alpha, ...).  The arguable
+    (atom, package) pairs are singled out by glob_arguable()."""
+    first, rest, letter, sufs, rev = ref.parse_version(ver)
+    for c in (first, *rest):
+        if len(c) > 1 and c[0] == "0":
+            return False
+    for _, n in sufs:
+        if len(n) > 1 and n[0] == "0":
+            return False
+    return rev is None or rev[0] != "0"
+
+
+@lru_cache(maxsize=None)
+def glob_arguable(aver, pver):
+    """'=aver*' against pver is arguable exactly when aver ends in a number-less suffix name and pver continues that
+    very suffix with a number (=1_p* vs 1_p1: one component '_p1' by A2, a boundary by portage's letter/digit rule).
+    Everything else is decided alike by the component-prefix rule and by portage's boundary rule: =1_p* matches 1_p,
+    1_p-r1, 1_p_alpha1 and does not match 1, 1_pre, 1_pre1; =1a* matches 1a, 1a_p1, 1a-r1 and not 1, 1b."""
+    _, _, _, sufs, rev = ref.parse_version(aver)
+    if rev is not None or not sufs or sufs[-1][1] != "":
+        return False
+    return pver.startswith(aver) and pver[len(aver) : len(aver) + 1].isdigit()
+
+
+@lru_cache(maxsize=None)
 def has_leading_zero(ver):
     first, rest, letter, sufs, rev = ref.parse_version(ver)
     nums = [first, *rest] + [n for _, n in sufs if n] + ([rev] if rev is not None else [])
@@ -135,6 +162,8 @@ def match_reason(ad, pd):
     pkey, pver, pslot, psubslot, prepo, piuse, puse = pd[:7]
     if key != pkey:
         return "key"
+    if op == "=*" and glob_arguable(ver, pver):
+        return "excluded-glob"
     if not version_holds(op, ver, pver):
         return "ver"
     if slot is not None and slot != pslot:
@@ -154,6 +183,6 @@ def match_reason(ad, pd):
 def ref_match(ad, pd):
     """True / False / None (excluded)."""
     r = match_reason(ad, pd)
-    if r == "excluded":
+    if r.startswith("excluded"):
         return None
     return r.startswith("match")
